@@ -1,6 +1,7 @@
 /- engines `conc` and `locks`: what the theorems promise for the concurrent campaigns.
    conc replay rounds=<n>   -> rounds-with-exactly-one-winner=<n>     (C07.exactly_one_winner, C19.operations_atomic)
    conc salts               -> unrecognised=0                         (C08 salts_recognised; C19)
+   conc nat churn           -> ok                                     (C19 lock facts of natmap; C04.NatInv)
    conc cipherlist          -> bad-snapshots=0                        (C01.snapshot_is_perm, C19)
    locks stress             -> completed=true usable=true             (C13.no_deadlock, manager_usable_afterwards)
 -/
@@ -15,6 +16,7 @@ def step (args : List String) : String :=
     | some n => s!"rounds-with-exactly-one-winner={n}"
     | none => "bad-op"
   | ["cipherlist"] => "bad-snapshots=0"
+  | ["nat", "churn"] => "ok"                           -- C19/C04: the association table stays consistent under churn
   | ["salts"] => "unrecognised=0"                     -- C08: every issued salt is recognised, whatever the interleaving
   | _ => "bad-op"
 
